@@ -896,7 +896,7 @@ func main() {
 		for k := 0; k < *nbig; k++ {
 			r := master.Fork(uint64(900000 + k))
 			c := Case{Backend: "mem"}
-			for i := 0; i < 10050+k*9950; i++ {
+			for i := 0; i < 10050+k*1000; i++ { // a 20000-item list literal overflows coqc's parser stack
 				c.Ops = append(c.Ops, Op{K: "saveregion", ID: uint64(i)*3 + 1, V: genDisjoint(r, i, false)})
 			}
 			c.Ops = append(c.Ops, Op{K: "loadregions"})
